@@ -3,6 +3,7 @@ package refjcs
 import (
 	"fmt"
 	"math"
+	"math/big"
 	"strconv"
 	"strings"
 	"unicode/utf16"
@@ -192,6 +193,18 @@ func SpellNumber(f float64, c Chooser, o SpellOpts) string {
 				cands = append(cands, fx+"0", fx+"000")
 			}
 			cands = append(cands, strconv.FormatFloat(f, 'f', 40, 64))
+		}
+		if abs >= 1<<53 && abs < 1e25 && abs == math.Trunc(abs) {
+			// other integer spellings of the same double: its exact decimal expansion and neighbours that round to it
+			bi, _ := new(big.Float).SetFloat64(abs).Int(nil)
+			sg := ""
+			if f < 0 {
+				sg = "-"
+			}
+			for _, d := range []int64{0, 1, -1, 7, -13, 100, -255} {
+				cands = append(cands, sg+new(big.Int).Add(bi, big.NewInt(d)).String())
+			}
+			cands = append(cands, sg+bi.String(), sg+bi.String()) // weight
 		}
 		// shift the decimal point: d.ddd e x  ==  ddd.d e (x-2) ...
 		mant, expS, _ := strings.Cut(e, "e")
